@@ -10,7 +10,7 @@ TAIL = [{"op": "create_index", "h": "main", "col": "val", "type": "btree"}, {"op
 
 
 def run(prop, tier, replay):
-    return T.run(prop, tier, FAMILIES, {"CopyReadsSame"}, tail_steps=TAIL, quick_cap=800,
+    return T.run(prop, tier, FAMILIES, {"CopyReadsSame"}, replay=replay, tail_steps=TAIL, quick_cap=800,
                  assumptions=["tables without foreign base paths (no branches / shallow clones), local file system",
                               "every version is compared by its full projection (rows, order, deletions, counters, schema, index list, config); "
                               "tags must list and resolve identically"])
